@@ -179,6 +179,12 @@ def naming_cases(tier, rng):
     for n in names:
         for r in RULES:
             out.append((r, n))
+    # enum variants through compute_variant_name (apply_to_variant)
+    vnames = list(words(["a", "B", "_", "1", E2, "É", E4], 3 if tier == "quick" else 4)) + \
+        ["Active", "InProgress", "HTTPError", "Id", "État", "V_1", "Self_", "ÀB", "aB", "A", "Éa", "Z42", "ǅx", "İ", "ß"]
+    for n in vnames:
+        for r in RULES[:8]:
+            out.append(("variant:" + r, n))
     return out
 
 
